@@ -76,6 +76,13 @@ def regenerate_facts():
     if old != out:
         with open(path, "w") as f:
             f.write(out)
+        # nothing compiled against the previous facts may survive a failed rebuild
+        for f in ("Generated", "Tie", "TieLex", "TieMsg", "PC08", "PC20"):
+            for ext in (".vo", ".vok", ".vos", ".glob"):
+                try:
+                    os.remove(os.path.join(COQ, f + ext))
+                except OSError:
+                    pass
 
 
 def build_model():
@@ -397,6 +404,9 @@ _declpanic = re.compile(r'^str:(duplicate option name|duplicate argument name|in
 
 
 def canon_panic(p):
+    # a spec error is identified by its position; the wording of its message is not an observable of any property
+    if p.startswith("parse:"):
+        return ":".join(p.split(":")[:2])
     m = _declpanic.match(p)
     if m:
         name = m.group(2)
